@@ -54,11 +54,11 @@ TABLE_FACTS = {
     "C02": ["distinct"],
     "C03": ["registry", "golden"],
     "C05": ["distinct"],
-    "C07": ["registry", "sorted", "distinct", "first4_unique", "short_prefix", "token_safe", "unicode", "golden"],
-    "C08": ["accept_rule", "registry", "first4_unique"],
+    "C07": ["registry", "wordlen", "sorted", "distinct", "first4_unique", "short_prefix", "token_safe", "unicode", "golden"],
+    "C08": ["accept_rule", "wordlen", "registry", "first4_unique"],
     "C09": ["token_safe", "zh_overlap"],
     "C17": ["fits"],
-    "C19": ["sorted", "distinct", "accept_rule", "chars_agree"],
+    "C19": ["sorted", "distinct", "accept_rule", "wordlen", "chars_agree"],
 }
 
 
